@@ -190,10 +190,15 @@ class Cluster:
                 elif t.kind == "opt" and t.args[0].kind in ("str", "bytes"):
                     # None or empty: what `assert self._x` / `if self._x` distinguish
                     comps.append(Component(f"{nm}.{f}.falsy", "falsy", nm, f, [True, False]))
+                    comps.append(Component(f"{nm}.{f}.isnone", "isnone", nm, f, [True, False]))
                 elif t.kind == "opt":
                     comps.append(Component(f"{nm}.{f}.isnone", "isnone", nm, f, [True, False]))
                 elif t.kind in ("seq", "list", "deque", "set", "dict"):
                     comps.append(Component(f"{nm}.{f}.empty", "empty", nm, f, [True, False]))
+        for (cid, kind, onm, f, arg) in getattr(self.spec, "extra_components", []):
+            c = Component(cid, kind, onm, f, arg if kind == "mapped" else [True, False])
+            c.arg = arg
+            comps.append(c)
         for f, (t, src) in self.spec.ghost.items():
             if t.startswith("enum:"):
                 comps.append(Component(f"ghost.{f}", "enum", "ghost", f, t[5:].split(",")))
@@ -215,6 +220,19 @@ class Cluster:
         if c.kind == "isnone":
             isn = v.isnone if isinstance(v, VOpt) else z3.BoolVal(v is NONE)
             return isn if val else z3.Not(isn)
+        if c.kind == "member":
+            # a fixed key is in a set-valued field
+            t = z3.Select(v.z, z3.StringVal(c.arg))
+            return t if val else z3.Not(t)
+        if c.kind == "mapped":
+            # an optional string field seen through a fixed list of values (index 0 = none of them)
+            names = c.domain
+            vv = v.inner if isinstance(v, VOpt) else v
+            isn = v.isnone if isinstance(v, VOpt) else z3.BoolVal(False)
+            others = [z3.And(z3.Not(isn), vv.z == z3.StringVal(n)) for n in names[1:]]
+            if names.index(val) == 0:
+                return z3.Not(z3.Or(others))
+            return others[names.index(val) - 1]
         if c.kind == "falsy":
             t = z3.Not(it.truth(v))
             return t if val else z3.Not(t)
